@@ -71,6 +71,11 @@ def oracle(ctx, deep):
         r = meta["_recipe"]
         d = kv(a)
         line = "recipe " + r.tokens()
+        if "BEYOND-LEN-CHANGED" in a:
+            ctx.violations.append({"finding_key": "C07-caller-table", "recipe": meta["recipe"], "line": line, "observed": a[:300],
+                                   "what": "Entropy()/SuccessProbability()/Alphabet() wrote into the caller's table beyond the length of RequireSets (passed as a prefix "
+                                           "of a longer table): every other recipe built on that table now has other required sets, and its entropy is no longer that of its fields"})
+            continue
         if a.startswith("panic"):
             ctx.violations.append({"finding_key": "C07-panic", "what": "Entropy()/count panicked", "recipe": meta["recipe"], "line": line, "observed": a})
             continue
